@@ -21,8 +21,8 @@ RULE = (
 )
 ASSUMPTIONS = [
     "outside the documented domain (any exception accepted, but a returned tier must still be well-formed): insertSpace with "
-    "duration<=0, insertEntry with start>=end, deleteEntry of an absent entry, dejitter with an empty reference, morph with an "
-    "empty operand, constructor with minT>maxT",
+    "duration<=0, insertEntry with start>=end, deleteEntry of an absent entry, dejitter with an empty reference, "
+    "constructor with minT>maxT",
 ]
 REQUIRED_CLASSES = ["history:insert_entry_ok", "history:construct_ok", "history:erase_ok", "history:morph_ok",
                     "history:dejitter_ok", "history:untrimmed_label_inserted"]
